@@ -213,7 +213,7 @@ def physical(ck, rng, nstates):
                     if not np.array_equal(a1, a2):
                         ck.violation({"clause": "call_order", "what": key}, "%s at truncation %d: %r, after a call at truncation %d and back: %r: %s" % (key, trunc, a1.tolist(), other, a2.tolist(), det), det)
                         break
-                if e > 0.05 and trunc != other:
+                if e > 0.1 and trunc != other:        # (0.1^10 = 1e-10 relative: far above rounding)
                     h1, h2 = float(np.asarray(res["tidal_heating"]).ravel()[-1]), float(np.asarray(r_other["tidal_heating"]).ravel()[-1])
                     if h1 == h2 and h1 != 0.0:
                         ck.violation({"clause": "call_order", "what": "truncation_ignored"}, "tidal heating at truncation %d equals the one at truncation %d bit for bit (%r) at e = %.3f: %s" % (trunc, other, h1, e, det), det)
